@@ -8,6 +8,7 @@ package main
 import (
 	"encoding/json"
 	"fmt"
+	"golang.org/x/tools/go/ssa"
 	"os"
 	"path/filepath"
 	"sort"
@@ -286,6 +287,65 @@ func runCheck(o checkOpts) int {
 		}
 	}
 
+	// A contract whose function has disappeared (renamed, turned into a function,
+	// removed) leaves its callers calling something without a contract: the callee
+	// is then executed in place and the caller's obligations were written against
+	// the contract, not the body.  Failing obligations of such a caller cannot be
+	// judged - the contract file needs maintenance first - so they make the caller
+	// undecided instead of being reported as violations.  (A caller that merely
+	// stops calling a function that still exists is NOT covered by this rule.)
+	orphans := map[string][]string{}
+	for p, ps := range e.specs {
+		for _, key := range ps.Order {
+			if c := ps.Contracts[key]; c != nil && !c.ExternDep && e.findFunc(p, key) == nil {
+				orphans[p] = append(orphans[p], key)
+			}
+		}
+	}
+	if len(orphans) > 0 {
+		for _, n := range names {
+			a := agg[n]
+			if a.verdict == "discharged" || isKnown(n) != nil || len(a.queries) == 0 {
+				continue
+			}
+			fname := a.queries[0].Func
+			var fn *ssa.Function
+			for f := range e.allFuncs {
+				_, rel := e.relName(f)
+				if pkgOf(f) != nil && pkgBase(pkgOf(f).Path())+"."+rel == fname {
+					fn = f
+				}
+			}
+			if fn == nil || len(orphans[pkgOf(fn).Path()]) == 0 {
+				continue
+			}
+			callee := ""
+			for _, b := range fn.Blocks {
+				for _, ins := range b.Instrs {
+					if ci, ok := ins.(ssa.CallInstruction); ok {
+						if g := ci.Common().StaticCallee(); g != nil && g.Blocks != nil && pkgOf(g) == pkgOf(fn) && e.contractOf(g) == nil {
+							callee = g.Name()
+						}
+					}
+				}
+			}
+			if callee == "" {
+				continue
+			}
+			a.verdict = "undecided"
+			msg := fmt.Sprintf("%s: obligation %s cannot be judged: the function calls %s, which has no contract, while the contract of %s has lost its function (renamed or removed?)", fname, n, callee, strings.Join(orphans[pkgOf(fn).Path()], ", "))
+			dup := false
+			for _, u := range undecided {
+				if strings.HasPrefix(u, fname+":") {
+					dup = true
+				}
+			}
+			if !dup {
+				undecided = append(undecided, msg)
+			}
+		}
+	}
+
 	// bounded drivers: replay / fall-back / thorough differential
 	needDriver := o.tier == "thorough" || len(undecided) > 0 || quickTierDriver(o)
 	for _, n := range names {
@@ -332,7 +392,7 @@ func runCheck(o checkOpts) int {
 	known := 0
 	for _, n := range names {
 		a := agg[n]
-		if a.verdict == "discharged" {
+		if a.verdict == "discharged" || a.verdict == "undecided" {
 			continue
 		}
 		if kf := isKnown(n); kf != nil {
